@@ -590,6 +590,29 @@ def rule_x15(text, log):
     return out
 
 
+def rule_x17(text, log):
+    """X17: tuple-struct patterns in parameter position, `Name(x): &Name`, become a named parameter plus a `let` on its field:
+    `__pK: &Name` and `let x = &__pK.0;` as first statement (Verus' front end accepts only identifier parameters)"""
+    bo = body_open(text)
+    if bo < 0:
+        return text
+    head, body = text[:bo], text[bo:]
+    lets = []
+    cnt = [0]
+
+    def rep(mm):
+        k = cnt[0]
+        cnt[0] += 1
+        lets.append('let %s = &__p%d.0;' % (mm.group(2), k))
+        new = '__p%d: &%s' % (k, mm.group(3))
+        log.append({'rule': 'X17', 'before': norm(mm.group(0)), 'after': new + ' + ' + lets[-1]})
+        return new
+    head2 = re.sub(r'\b([A-Z][A-Za-z0-9_]*)\(([a-z_][A-Za-z0-9_]*)\)\s*:\s*&\s*([A-Z][A-Za-z0-9_]*)', rep, head)
+    if not lets:
+        return text
+    return head2 + body[0] + "\n" + "\n".join(lets) + body[1:]
+
+
 def rule_x13(text, log):
     """by-value `mut self` (rejected by Verus 0.2026.09.13): the parameter is written `self` and moved into a mutable local
     that the body uses instead: `fn f(mut self) { B }` -> `fn f(self) { let mut __self = self; B[self := __self] }`"""
@@ -868,6 +891,8 @@ def apply_rules(text, flags, log, path):
         text = rule_x14(text, mylog)
     if 'x15' in flags:
         text = rule_x15(text, mylog)
+    if 'x17' in flags:
+        text = rule_x17(text, mylog)
     if 'x10' in flags:
         v = flags['x10']
         text = rule_x10(text, mylog, v if isinstance(v, str) else None)
